@@ -537,6 +537,23 @@ def check_var(C, name, s, tail, offset, pos=0):
             val = 'unreadable result %r: %s' % (got, err)
         if val != ref.value:
             bad.append(({'kind': 'decode_value', 'code': name, 'impl': 'RP66V1.code_read'}, '%s = %r, the standard defines %r' % (desc, val, ref.value)))
+        elif name in ('DTIME', 'OBNAME', 'OBJREF'):
+            # the decoded object is the caller's: what the caller does to it does not show in a later decoding of the same bytes
+            try:
+                for attr in ('year', 'tz', 'hour', 'O', 'C', 'T'):
+                    if hasattr(got, attr):
+                        try:
+                            setattr(got, attr, 77)
+                        except Exception:  # noqa  (immutable results cannot be aliased)
+                            pass
+                ld2 = C.LogicalData(data)
+                ld2.seek(offset)
+                val2 = _var_value(name, C.R.code_read(rc, ld2))
+            except Exception as err:  # noqa
+                val2 = '%s: %s' % (type(err).__name__, err)
+            if val2 != ref.value:
+                bad.append(({'kind': 'decode_value_after_caller_changed_an_earlier_result', 'code': name},
+                            '%s: decoded again after the caller changed the first result: %r, the standard defines %r' % (desc, val2, ref.value)))
     helper = C.len_helper.get(name)
     if helper is not None:
         try:
